@@ -41,18 +41,27 @@ def run(ctx):
     if skip_mc:
         ctx.notes.append("exhaustive model checking skipped by VERIF_C16_SKIP_MC (binding self-test run)")
     if not skip_mc:
-        model_check(ctx, SPEC, "MC_RevCache", "MC_RevCache.cfg" if quick else "MC_RevCache_thorough.cfg", timeout=5400)
-        model_check(ctx, SPEC, "MC_RevCache", "MC_RevCache_env.cfg" if quick else "MC_RevCache_env_thorough.cfg", timeout=5400)
+        _mc(ctx, "MC_RevCache.cfg" if quick else "MC_RevCache_thorough.cfg")
+        _mc(ctx, "MC_RevCache_env.cfg" if quick else "MC_RevCache_env_thorough.cfg")
         if not quick:
-            model_check(ctx, SPEC, "MC_RevCache", "MC_RevCache_thorough3.cfg", timeout=5400)     # three concurrent calls
-            model_check(ctx, SPEC, "MC_RevCache", "MC_RevCache_onecv.cfg", timeout=5400)         # "one CV => one body": only `revive` is left
+            _mc(ctx, "MC_RevCache_thorough3.cfg", guard=False)     # three concurrent calls (one configuration without byte limit)
+            _mc(ctx, "MC_RevCache_onecv.cfg", guard=False)         # "one CV => one body": only `revive` is left
         ctx.cov["exhaustive"] = True
 
     # ---- 2. sequential binding
     behs = behaviours(ctx, SPEC, "MC_RevCache", "Beh_RevCache.cfg", timeout=1800)
     if quick:                                     # a seeded third of the exhaustive set per run (all of it in the thorough tier)
         behs = [b for i, b in enumerate(behs) if (i + ctx.seed) % 3 == 0]
-    behs += behaviours(ctx, SPEC, "MC_RevCache", "Sim_RevCache.cfg", num=150 if quick else 3000, depth=150, timeout=1800)
+    sims = behaviours(ctx, SPEC, "MC_RevCache", "Sim_RevCache.cfg", num=150 if quick else 3000, depth=150, timeout=1800)
+    hist = {}
+    for b in sims:                                # action mix of the simulated behaviours (SimNext: one successor per call kind)
+        for st in b["steps"]:
+            hist[st["op"]] = hist.get(st["op"], 0) + 1
+            if st["f"] != "ok":
+                hist["loader_failure"] = hist.get("loader_failure", 0) + 1
+    ctx.cov["sim_call_histogram"] = hist
+    log("  simulated behaviours: %d, call mix %s" % (len(sims), json.dumps(hist, sort_keys=True)))
+    behs += sims
     # ---- one start of the db test binary for: sequential replay, concurrent driver, candidates (forced deviations)
     bf = os.path.join(ctx.scratch, "c16-beh.json")
     cf = os.path.join(ctx.scratch, "c16-cand-beh.json")
@@ -85,6 +94,26 @@ def run(ctx):
 
 
 # --------------------------------------------------------------------------------------------
+def _mc(ctx, cfg, guard=True):
+    """exhaustive run; vacuity guard on TLC's FINAL coverage listing (the interim listings of -coverage report actions that simply
+    have not fired yet, which core notes as zero coverage): every disjunct of Act/Calls must have generated states."""
+    n = len(ctx.notes)
+    r = model_check(ctx, SPEC, "MC_RevCache", cfg, timeout=5400)
+    del ctx.notes[n:]
+    if ctx.tier == "thorough" and guard:
+        import re
+        last = {}
+        for line in r.out.splitlines():
+            m = re.match(r"^<(\w+) line .*\((\d+ \d+ \d+ \d+)\)>: (\d+):(\d+)$", line.strip())
+            if m:
+                last[(m.group(1), m.group(2))] = int(m.group(4))
+        zero = sorted(k for k, v in last.items() if v == 0)
+        if zero:
+            raise Inconclusive("vacuity: actions never taken in %s: %s" % (cfg, zero))
+        ctx.cov.setdefault("action_coverage", {})[cfg] = "%d action disjuncts, all taken" % len(last)
+    return r
+
+
 def _go(ctx, modes, env, race=False, timeout=3000):
     base = os.path.join(ctx.scratch, "c16-%d.ndjson" % len(ctx.cov["go_runs"]))
     e = {"VERIF_C16_MODE": ",".join(modes), "VERIF_TRACE_OUT": base}
